@@ -43,6 +43,7 @@ TFile == /\ IsEvent("File")
                /\ Expect(d.free = E.graph.free /\ d.flrun = SeqSet(E.graph.fl), <<"free list: Format.tla vs the Go decoder", d.free>>)
                /\ Expect(Consistent([hwm |-> d.hwm, reach |-> d.pages, free |-> d.free, fl |-> d.flrun, hasfl |-> d.freelist # -1,
                                      badtype |-> 0, disorder |-> 0]), "accounting predicate fails on a file produced by commits (C07)")
+               /\ \A i \in 1..Len(E.pinfo) : Expect(PageInfoOK(f, d, E.pinfo[i]), <<"Tx.Page differs from the page header / free list; page", E.pinfo[i]>>)
 
 TMetas == /\ IsEvent("Metas")
           /\ LET f == [b |-> E.m0 \o E.m1, ps |-> 80]
